@@ -87,6 +87,10 @@ def _pop(o, ncells):
     if k < 0.4:
         a, b = o.randrange(ncells), o.randrange(ncells)
         return {"t": "range", "a": a, "b": b}
+    if k < 0.52:
+        # populations written as slices: net.cell(slice(a, b)), every second cell net.cell(slice(None, None, 2)) ...
+        a, b = o.randrange(ncells), o.randrange(ncells)
+        return {"t": "slice", "a": a if o.random() < 0.6 else None, "b": b, "open": o.random() < 0.4, "step": o.choice([None, 2, 2, 3])}
     size = o.randint(1, ncells)
     return {"t": "list", "v": sorted(o.sample(range(ncells), size))}
 
